@@ -34,18 +34,21 @@ Theorem ftmuldiv_eq : forall a b c, i32 a -> i32 b -> i32 c -> i32 (ft_muldiv a 
   sk_mul_div a b c = ft_muldiv a b c.
 Proof. exact ftmuldiv_eq. Qed.
 
-(* FT_MulDiv_No_Round: whenever skrifa's kernel does not trap in the overflow-checks profile *)
-Theorem ftmuldiv_noround_mod32 : forall a b c v, i32 a -> i32 b -> i32 c ->
-  sk_mul_div_no_round true a b c = Some v -> v = wrap_s 32 (ft_muldiv_no_round a b c).
-Proof. exact ftmuldiv_noround_mod32. Qed.
-Theorem ftmuldiv_noround_eq : forall a b c v, i32 a -> i32 b -> i32 c -> i32 (ft_muldiv_no_round a b c) ->
-  sk_mul_div_no_round true a b c = Some v -> v = ft_muldiv_no_round a b c.
-Proof. exact ftmuldiv_noround_eq. Qed.
-Theorem muldiv_noround_total : forall a b c, i32 a -> i32 b -> i32 c ->
+(* FT_MulDiv_No_Round vs math::mul_div_no_round (the code = wrapping reading [false]): equal modulo 2^32 on the
+   wrap-free domain (no intermediate i32 result wraps), identical when FreeType's result is an i32; the domain
+   contains every operand triple without i32::MIN whose quotient fits; the kernel never traps *)
+Theorem ftmuldiv_noround_mod32 : forall a b c, i32 a -> i32 b -> i32 c -> wrap_free_muldiv_noround a b c ->
+  sk_mul_div_no_round false a b c = Some (wrap_s 32 (ft_muldiv_no_round a b c)).
+Proof. exact muldiv_noround_wrapfree_mod32. Qed.
+Theorem ftmuldiv_noround_eq : forall a b c, i32 a -> i32 b -> i32 c -> wrap_free_muldiv_noround a b c ->
+  i32 (ft_muldiv_no_round a b c) -> sk_mul_div_no_round false a b c = Some (ft_muldiv_no_round a b c).
+Proof. exact muldiv_noround_wrapfree_eq. Qed.
+Theorem muldiv_noround_wrapfree_range : forall a b c, i32 a -> i32 b -> i32 c ->
   a <> -2147483648 -> b <> -2147483648 -> c <> -2147483648 ->
-  (c <> 0 -> Z.abs a * Z.abs b / Z.abs c <= 2147483647) ->
-  exists v, sk_mul_div_no_round true a b c = Some v.
-Proof. exact muldiv_noround_total. Qed.
+  (c <> 0 -> Z.abs a * Z.abs b / Z.abs c <= 2147483647) -> wrap_free_muldiv_noround a b c.
+Proof. exact muldiv_noround_wrapfree_range. Qed.
+Theorem muldiv_noround_never_traps : forall a b c, sk_mul_div_no_round false a b c <> None.
+Proof. exact muldiv_noround_never_traps. Qed.
 
 (* TT_MulFix14: all i32 operands; and its meaning *)
 Theorem mul14_eq : forall a b, i32 a -> i32 b -> sk_mul14 a b = ft_mulfix14 a b.
@@ -53,52 +56,49 @@ Proof. exact mul14_eq. Qed.
 Theorem mul14_spec : forall a b, i32 a -> i32 b -> sk_mul14 a b = wrap_s 32 (rha (a * b) 16384).
 Proof. exact mul14_spec. Qed.
 
-(* RoundState::round vs Round_* (compensation 0), one theorem per mode: for every i32 distance and every
-   i32 (threshold, phase, period), whenever skrifa's kernel does not trap it returns FreeType's value
-   (as a 64-bit long, not merely modulo 2^32) *)
-Theorem round_grid_eq : forall thr ph per d v, i32 d ->
-  sk_rs_round true 0 thr ph per d = Some v -> v = ft_round_to_grid 0 d.
-Proof. exact round_grid_eq. Qed.
-Theorem round_half_grid_eq : forall thr ph per d v, i32 d ->
-  sk_rs_round true 1 thr ph per d = Some v -> v = ft_round_to_half_grid 0 d.
-Proof. exact round_half_grid_eq. Qed.
-Theorem round_double_grid_eq : forall thr ph per d v, i32 d ->
-  sk_rs_round true 2 thr ph per d = Some v -> v = ft_round_to_double_grid 0 d.
-Proof. exact round_double_grid_eq. Qed.
-Theorem round_down_to_grid_eq : forall thr ph per d v, i32 d ->
-  sk_rs_round true 3 thr ph per d = Some v -> v = ft_round_down_to_grid 0 d.
-Proof. exact round_down_to_grid_eq. Qed.
-Theorem round_up_to_grid_eq : forall thr ph per d v, i32 d ->
-  sk_rs_round true 4 thr ph per d = Some v -> v = ft_round_up_to_grid 0 d.
-Proof. exact round_up_to_grid_eq. Qed.
+(* RoundState::round (the code = wrapping reading [false]) vs Round_* (compensation 0): for every mode, every
+   i32 distance and every i32 (threshold, phase, period) in the wrap-free domain, the code returns FreeType's
+   value (as a 64-bit long, not merely modulo 2^32) *)
+Theorem round_state_eq : forall mode thr ph per d, 0 <= mode <= 7 -> i32 thr -> i32 ph -> i32 per -> i32 d ->
+  wrap_free_round mode thr ph per d ->
+  sk_rs_round false mode thr ph per d = Some (ft_rs_round mode thr ph per d).
+Proof. exact rs_round_wrapfree_eq. Qed.
+(* ... per mode, on explicit numeric parts of that domain: the five grid modes for |d| <= 2^31 - 128, Off
+   everywhere, Super/Super45 for all components of magnitude <= 2^28 (period <> 0 for Super45) *)
+Theorem round_grid_eq : forall thr ph per d, i32 thr -> i32 ph -> i32 per -> -2147483520 <= d <= 2147483520 ->
+  sk_rs_round false 0 thr ph per d = Some (ft_round_to_grid 0 d).
+Proof. exact round_mode0_code_agree. Qed.
+Theorem round_half_grid_eq : forall thr ph per d, i32 thr -> i32 ph -> i32 per -> -2147483520 <= d <= 2147483520 ->
+  sk_rs_round false 1 thr ph per d = Some (ft_round_to_half_grid 0 d).
+Proof. exact round_mode1_code_agree. Qed.
+Theorem round_double_grid_eq : forall thr ph per d, i32 thr -> i32 ph -> i32 per -> -2147483520 <= d <= 2147483520 ->
+  sk_rs_round false 2 thr ph per d = Some (ft_round_to_double_grid 0 d).
+Proof. exact round_mode2_code_agree. Qed.
+Theorem round_down_to_grid_eq : forall thr ph per d, i32 thr -> i32 ph -> i32 per -> -2147483520 <= d <= 2147483520 ->
+  sk_rs_round false 3 thr ph per d = Some (ft_round_down_to_grid 0 d).
+Proof. exact round_mode3_code_agree. Qed.
+Theorem round_up_to_grid_eq : forall thr ph per d, i32 thr -> i32 ph -> i32 per -> -2147483520 <= d <= 2147483520 ->
+  sk_rs_round false 4 thr ph per d = Some (ft_round_up_to_grid 0 d).
+Proof. exact round_mode4_code_agree. Qed.
 Theorem round_off_eq : forall thr ph per d, i32 d ->
-  sk_rs_round true 5 thr ph per d = Some (ft_round_none 0 d).
-Proof. exact round_off_eq. Qed.
-Theorem round_super_eq : forall thr ph per d v, i32 thr -> i32 ph -> i32 per -> i32 d ->
-  sk_rs_round true 6 thr ph per d = Some v -> v = ft_round_super 0 thr ph per d.
-Proof. exact round_super_eq. Qed.
-Theorem round_super45_eq : forall thr ph per d v, i32 thr -> i32 ph -> i32 per -> i32 d ->
-  sk_rs_round true 7 thr ph per d = Some v -> v = ft_round_super_45 0 thr ph per d.
-Proof. exact round_super45_eq. Qed.
-(* ... and the trap-free domain is explicit: five grid modes for |d| <= 2^31 - 128, Super/Super45 for all
-   components of magnitude <= 2^28 (period <> 0 for Super45) *)
-Theorem round_grid_modes_agree : forall mode thr ph per d, 0 <= mode <= 4 -> i32 thr -> i32 ph -> i32 per ->
-  -2147483520 <= d <= 2147483520 ->
-  sk_rs_round true mode thr ph per d = Some (ft_rs_round mode thr ph per d).
-Proof. exact round_grid_modes_agree. Qed.
-Theorem round_super_agree : forall thr ph per d, small thr -> small ph -> small per -> small d ->
-  sk_rs_round true 6 thr ph per d = Some (ft_rs_round 6 thr ph per d).
-Proof. exact round_super_agree. Qed.
-Theorem round_super45_agree : forall thr ph per d, small thr -> small ph -> small per -> small d -> per <> 0 ->
-  sk_rs_round true 7 thr ph per d = Some (ft_rs_round 7 thr ph per d).
-Proof. exact round_super45_agree. Qed.
-(* the overflow-checks reading (the one tied to the code by the harness) refines the release reading *)
-Theorem rs_round_refines : forall mode thr ph per d v, 0 <= mode <= 7 ->
-  sk_rs_round true mode thr ph per d = Some v -> sk_rs_round false mode thr ph per d = Some v.
-Proof. exact rs_round_refines. Qed.
-Theorem muldiv_noround_refines : forall a b c v,
-  sk_mul_div_no_round true a b c = Some v -> sk_mul_div_no_round false a b c = Some v.
-Proof. exact muldiv_noround_refines. Qed.
+  sk_rs_round false 5 thr ph per d = Some (ft_round_none 0 d).
+Proof. exact round_off_code_agree. Qed.
+Theorem round_super_eq : forall thr ph per d, small thr -> small ph -> small per -> small d ->
+  sk_rs_round false 6 thr ph per d = Some (ft_round_super 0 thr ph per d).
+Proof. exact round_super_code_agree. Qed.
+Theorem round_super45_eq : forall thr ph per d, small thr -> small ph -> small per -> small d -> per <> 0 ->
+  sk_rs_round false 7 thr ph per d = Some (ft_round_super_45 0 thr ph per d).
+Proof. exact round_super45_code_agree. Qed.
+(* the numeric ranges above are inside the wrap-free domain *)
+Theorem round_grid_modes_wrapfree : forall mode thr ph per d, 0 <= mode <= 4 ->
+  -2147483520 <= d <= 2147483520 -> wrap_free_round mode thr ph per d.
+Proof. exact round_grid_modes_wrapfree. Qed.
+Theorem round_super_wrapfree : forall thr ph per d, small thr -> small ph -> small per -> small d ->
+  wrap_free_round 6 thr ph per d.
+Proof. exact round_super_wrapfree. Qed.
+Theorem round_super45_wrapfree : forall thr ph per d, small thr -> small ph -> small per -> small d -> per <> 0 ->
+  wrap_free_round 7 thr ph per d.
+Proof. exact round_super45_wrapfree. Qed.
 
 (* phantom-point rounding F26Dot6::round = FT_PIX_ROUND; Fixed::floor = FT_FloorFix;
    Fixed::round = FT_RoundFix away from negative ties *)
@@ -121,9 +121,11 @@ Print Assumptions ftmuldiv_mod32.
 Print Assumptions ftmuldiv_eq.
 Print Assumptions ftmuldiv_noround_mod32.
 Print Assumptions ftmuldiv_noround_eq.
-Print Assumptions muldiv_noround_total.
+Print Assumptions muldiv_noround_wrapfree_range.
+Print Assumptions muldiv_noround_never_traps.
 Print Assumptions mul14_eq.
 Print Assumptions mul14_spec.
+Print Assumptions round_state_eq.
 Print Assumptions round_grid_eq.
 Print Assumptions round_half_grid_eq.
 Print Assumptions round_double_grid_eq.
@@ -132,11 +134,9 @@ Print Assumptions round_up_to_grid_eq.
 Print Assumptions round_off_eq.
 Print Assumptions round_super_eq.
 Print Assumptions round_super45_eq.
-Print Assumptions round_grid_modes_agree.
-Print Assumptions round_super_agree.
-Print Assumptions round_super45_agree.
-Print Assumptions rs_round_refines.
-Print Assumptions muldiv_noround_refines.
+Print Assumptions round_grid_modes_wrapfree.
+Print Assumptions round_super_wrapfree.
+Print Assumptions round_super45_wrapfree.
 Print Assumptions pix_round_eq.
 Print Assumptions ftfloorfix_eq.
 Print Assumptions ftroundfix_eq.
